@@ -10,6 +10,7 @@ verus! {
 pub open spec fn call_gate<Req, Res, E>(tr: Trace<Req, Res, E>) -> bool { tr.created }
 pub open spec fn await_gate<Req, Res, E>(tr: Trace<Req, Res, E>) -> bool { true }
 //@include inner.rs
+//@include events.rs
 
 // ---- unit prelude (ASSUMED): the user closures Arc<dyn Fn ..> are pure functions; every invocation of a
 // strategy closure or of the backup service is counted in the trace (fb_calls) ----
@@ -72,7 +73,7 @@ pub enum FallbackStrategy<Req, Res, E> {
     Value(Res), ValueFn(ValueFn<Res>), FromError(FromErrorFn<Res, E>), FromRequestError(FromRequestErrorFn<Req, Res, E>),
     Service(ServiceFn<Req, Res, E>), Exception(ExceptionFn<E>),
 }
-pub struct FallbackConfig<Req, Res, E> { pub strategy: FallbackStrategy<Req, Res, E>, pub handle_predicate: Option<HandlePredicate<E>> }
+pub struct FallbackConfig<Req, Res, E> { pub strategy: FallbackStrategy<Req, Res, E>, pub handle_predicate: Option<HandlePredicate<E>>, pub event_listeners: EventListeners }
 pub struct Fallback<Req, Res, E> { pub inner: Inner<Req, Res, E>, pub config: Arc<FallbackConfig<Req, Res, E>> }
 
 /// the handle predicate accepts the error (always, if there is none)
